@@ -5,12 +5,13 @@ CONSTANTS
   P1 = "trace.parent_id"
   P2 = "parentId"
   IdConfigs <- IdConfigsBig
-  RuleSets <- RuleSetsBig
+  RuleSets <- RuleSetsQuick
   Events <- EventsBig
   Paths = {"event-json", "event-msgp", "batch-json", "batch-msgp", "otlp-http", "otlp-httpjson", "otlp-grpc", "otlp-logs", "peer-batch", "peer-batch-json"}
   FixedT1 = {"otlp-http", "otlp-httpjson", "otlp-grpc"}
-  LogPaths = {"event-json", "event-msgp", "batch-json", "batch-msgp", "otlp-http", "otlp-httpjson", "otlp-grpc", "otlp-logs", "peer-batch", "peer-batch-json"}
+  LogPaths = {"otlp-logs"}
   MaxDrive = 1
+  Both = FALSE
   Refresh = "always"
 CHECK_DEADLOCK FALSE
 INVARIANTS TypeOK C21LiveBelongs C21LiveConfiguredOrder C21LiveRoot C21LiveHistoryFree ViewOK
